@@ -4,13 +4,13 @@ CONSTANTS
   Mode = "pairs"
   Depth = 1
   LitSet = "small"
-  MaxPos = 1
-  MaxKw = 0
-  MaxArgs = 2
+  MaxPos = 2
+  MaxKw = 1
+  MaxArgs = 0
   FnFilter = "nogeneric3"
   Shapes = {"plain"}
-  MaxSess = 0
-  FixProtoCache = FALSE
-  Bug = "no_inherent_bounds"
-INVARIANT InvDiagnosis
+  MaxSess = 2
+  FixProtoCache = TRUE
+  Bug = "none"
+INVARIANT InvSessDiagnosisStrict
 CHECK_DEADLOCK FALSE
